@@ -451,10 +451,11 @@ func checkErr(in ErrInput) *fail {
 // ---------------------------------------------------------------------------------------------
 
 type Input struct {
-	Bind  *BindInput  `json:"bind,omitempty"`
-	Chain *ChainInput `json:"chain,omitempty"`
-	Err   *ErrInput   `json:"error,omitempty"`
-	Union *UnionInput `json:"union,omitempty"`
+	Bind  *BindInput     `json:"bind,omitempty"`
+	Chain *ChainInput    `json:"chain,omitempty"`
+	Err   *ErrInput      `json:"error,omitempty"`
+	Union *UnionInput    `json:"union,omitempty"`
+	Same  *SameNameInput `json:"same_name,omitempty"`
 }
 
 const bindShards = 16
@@ -470,11 +471,11 @@ func shards(tier string) []string {
 	for i := 0; i < unionShards; i++ {
 		out = append(out, fmt.Sprintf("union/%d", i))
 	}
-	return append(out, "errors")
+	return append(out, "errors", "samename")
 }
 
 func run(c *core.Ctx) {
-	c.Res.Bound = "bind: typedef t at every subset of <= 3 (thorough 4) of 11 scopes x 5 spellings (bare, own prefix, foreign prefix, unknown prefix, prefix of a module without t) x 10 reference sites (all sites in one program when all resolve, one program per site otherwise), 3 prefix regimes (same prefixes in module and submodule; the submodule calls b by the prefix its owner gives c; the same with c defining t too, so one prefix resolves to two modules within one program), 2 load orders; chain: 3-level chains, 2^9 set/omit patterns of units/default/pattern x 4 leaf additions for strings, 2^6 for enum, bits, leafref, decimal64, union, identityref bases; union: every ordered pair and triple of 26 member types (near-equal enums, ranges, typedefs of the same name in two modules, bits, identityrefs, leafrefs, decimal64s, a nested union) read directly, through a typedef chain, in a leaf-list and through a grouping, 2 load orders; errors: 22 unknown/unresolvable/cyclic references, in a module and in a submodule, processed twice"
+	c.Res.Bound = "bind: typedef t at every subset of <= 3 (thorough 4) of 11 scopes x 5 spellings (bare, own prefix, foreign prefix, unknown prefix, prefix of a module without t) x 10 reference sites (all sites in one program when all resolve, one program per site otherwise), 3 prefix regimes (same prefixes in module and submodule; the submodule calls b by the prefix its owner gives c; the same with c defining t too, so one prefix resolves to two modules within one program), 2 load orders; chain: 3-level chains, 2^9 set/omit patterns of units/default/pattern x 4 leaf additions for strings, 2^6 for enum, bits, leafref, decimal64, union, identityref bases; same-name: 2 programs whose chains pass through different typedefs of one name (across imports, by shadowing), 4 load orders, 12 fresh sets each; union: every ordered pair and triple of 26 member types (near-equal enums, ranges, typedefs of the same name in two modules, bits, identityrefs, leafrefs, decimal64s, a nested union) read directly, through a typedef chain, in a leaf-list and through a grouping, 2 load orders; errors: 22 unknown/unresolvable/cyclic references, in a module and in a submodule, processed twice"
 	report := func(caseNo int64, in Input, f *fail) {
 		c.Outcome("FAIL:" + f.fp)
 		c.Fail(caseNo, nil, f.fp, in, f.exp, f.obs)
@@ -611,6 +612,26 @@ func run(c *core.Ctx) {
 			}
 			return true
 		})
+	case "samename":
+		for v := range sameNameFiles {
+			for o := 0; o < 4; o++ {
+				in := SameNameInput{Variant: v, Order: o}
+				caseNo, run := c.Begin()
+				if c.Skip(caseNo, run, Input{Same: &in}) {
+					continue
+				}
+				c.Exec()
+				c.Validate()
+				c.Edge(12)
+				c.StateN(1)
+				c.NontrivialN(1)
+				if f := checkSameName(in); f != nil {
+					report(caseNo, Input{Same: &in}, f)
+				} else {
+					c.Outcome("same-named-chain-inherited")
+				}
+			}
+		}
 	case "errors":
 		for _, body := range errorTexts {
 			for _, sub := range []bool{false, true} {
@@ -659,6 +680,9 @@ func replay(tier string, raw json.RawMessage) (bool, string, string) {
 	case in.Chain != nil:
 		f = checkChain(*in.Chain)
 		text = chainText(*in.Chain)
+	case in.Same != nil:
+		f = checkSameName(*in.Same)
+		text = sameNameText(*in.Same)
 	case in.Union != nil:
 		f = checkUnion(*in.Union)
 		text = unionText(*in.Union)
